@@ -11,7 +11,7 @@ Definition alphabet (variant : bool) : list (list N) :=
    [8; 0; 1]; [8; 1; 1]; [8; 1; 0]; [8; 2; 1];
    [9; 0; 0]; [9; 0; 1]; [9; 0; 2]; [9; 1; 0]; [9; 1; 2]; [9; 2; 2];
    [10; 0]; [10; 1]; [10; 2]; [17; 0]; [17; 1];
-   [11; 100]; [12; 0]; [13; 1]; [13; 0]; [14; 0]; [15; 0]]
+   [11; 100]; [12; 0]; [13; 1]; [13; 0]; [14; 0]; [15; 0]; [18; 1]]
   ++ (if variant then [[4; 1]; [4; 2]; [4; 0]; [5; 1]; [6; 1]; [6; 0]; [7]] else [[2; 1]; [2; 2]; [2; 0]]).
 
 Fixpoint sweep (alpha : list (list N)) (depth : nat) (h : hst) (m : mst) : bool :=
